@@ -132,6 +132,36 @@ fn values(dt: &DataType) -> Vec<V> {
     }
 }
 
+/// a seeded random non-boundary value of the type
+fn random_value(dt: &DataType, rng: &mut vcommon::Rng) -> V {
+    match dt {
+        t if int_bounds(t).is_some() => {
+            let (lo, hi) = int_bounds(t).unwrap();
+            let span = (hi - lo) as u128 + 1;
+            V::I(lo + ((rng.next_u64() as u128 * 0x1_0000_0001u128 + rng.next_u64() as u128) % span) as i128)
+        }
+        DataType::Float32 => V::F((rng.range(-1_000_000, 1_000_000) as f32 / 8.0) as f64),
+        DataType::Float64 => V::F(rng.range(-1_000_000_000_000, 1_000_000_000_000) as f64 / 64.0),
+        DataType::Decimal128(p, _) => {
+            let max = 10i128.pow((*p).min(30) as u32) - 1;
+            let raw: i128 = (((rng.next_u64() as i128) << 32) | ((rng.next_u64() as i128) & 0xffff_ffff)) % max;
+            V::I(if rng.bool() { raw } else { -raw })
+        }
+        DataType::Date32 => V::I(rng.range(-30_000, 60_000) as i128),
+        DataType::Date64 => V::I(rng.range(-30_000, 60_000) as i128 * 86_400_000 + rng.range(0, 86_399_999) as i128),
+        DataType::Timestamp(TimeUnit::Second, _) => V::I(rng.range(-2_000_000_000, 4_000_000_000) as i128),
+        DataType::Timestamp(TimeUnit::Millisecond, _) => V::I(rng.range(-2_000_000_000_000, 4_000_000_000_000) as i128),
+        DataType::Timestamp(TimeUnit::Microsecond, _) => V::I(rng.range(-2_000_000_000_000_000, 4_000_000_000_000_000) as i128),
+        DataType::Timestamp(TimeUnit::Nanosecond, _) => V::I(rng.range(-2_000_000_000_000_000_000, 4_000_000_000_000_000_000) as i128),
+        DataType::Utf8 | DataType::Utf8View | DataType::LargeUtf8 => {
+            let n = 1 + rng.usize(4);
+            V::S((0..n).map(|_| *rng.pick(&['0', '1', '9', '-', '.', 'a', 'Z'])).collect())
+        }
+        DataType::Dictionary(_, v) => random_value(v, rng),
+        other => panic!("harness: no random value for {other}"),
+    }
+}
+
 /// exact rational value (unscaled, scale) of an integer / decimal cell
 fn exact(dt: &DataType, v: &V) -> Option<(i128, u32)> {
     let dt = match dt {
@@ -729,8 +759,14 @@ fn run(args: &Args) -> i32 {
                     rep.seen("common_types", &x.to_string());
                 }
             }
+            // boundary grid + 2 seeded random values per side (the seed-dependent part of the workload)
             let mut av = values(a);
             let mut bv = values(b);
+            let mut rng = vcommon::Rng::derive(args.seed, &[47, pairs.len() as u64]);
+            for _ in 0..2 {
+                av.push(random_value(a, &mut rng));
+                bv.push(random_value(b, &mut rng));
+            }
             av.push(V::Null);
             bv.push(V::Null);
             pairs.push(Pair { a: a.clone(), b: b.clone(), av, bv });
